@@ -81,7 +81,7 @@ def gen_spec(seed, index, tier):
         k = rng.choice(TASK_KINDS)
         t = dict(kind=k, eigvecs=rng.random() < 0.5, gv=rng.random() < 0.35, dm=rng.random() < 0.5, sym=rng.random() < 0.5,
                  conn=rng.random() < 0.3, direction=rng.choice([None, None, [1, 0, 0], [0.3, -0.2, 0.5], [0, 0, 1]]),
-                 qsel=[rng.randint(0, 26) for _ in range(rng.randint(1, 6))], extra_q=rng.choice([None, None, [1, 0, 0], [0, 1, 1], [0.13, 0.27, -0.31], [1.5, 0.5, 0]]),
+                 qsel=[rng.randint(0, 26) for _ in range(rng.randint(1, 6))], extra_q=rng.choice([None, [1, 0, 0], [0, 1, 1], [0.13, 0.27, -0.31], [1.5, 0.5, 0], [0.7, -0.9, 0.2]]),
                  abandon=rng.randint(0, 4), fmt=rng.choice(["yaml", "hdf5"]), what=rng.choice(["qpoints", "band", "mesh"]),
                  through_gamma=rng.random() < 0.3, call=rng.choice(["dm_at_q", "freqs", "freqs_vecs", "gv_at_q", "dm_run"]),
                  segments=rng.choice([1, 1, 2, 2, 3]), join=rng.choice(["gamma", "point", "none"]))
@@ -306,7 +306,9 @@ def task_direct(ctx, tid, t):
             ctx.report(tid, "direct:freqs", q, freq=ph.get_frequencies(q))
         elif c == "freqs_vecs":
             f, v = ph.get_frequencies_with_eigenvectors(q)
-            ctx.report(tid, "direct:freqs_vecs", q, freq=f, vecs=v)
+            # together with the matrix the same object hands out for the same q: the eigenvectors must diagonalise it
+            D = ph.get_dynamical_matrix_at_q(q)
+            ctx.report(tid, "direct:freqs_vecs", q, freq=f, vecs=v, D=D)
         elif c == "gv_at_q":
             ctx.report(tid, "direct:gv_at_q", q, gv=ph.get_group_velocity_at_q(q))
         else:
